@@ -1,12 +1,154 @@
 package main
 
-import "fmt"
+import (
+	"fmt"
+	"os"
+	"os/exec"
+	"path/filepath"
+	"sort"
+	"strings"
 
+	"tqsim/plan"
+)
+
+// yieldFiles are the files of /repo that get a yield point before every statement.
+var yieldFiles = []string{"cmds/server/loader/loader.go"}
+
+// makeYieldCopy builds the yield-instrumented scratch copy of /repo's current working
+// tree and an alternative go.mod pointing the replace directive at it.
 func makeYieldCopy() (dir string, modfile string, err error) {
-	return "", "", fmt.Errorf("yield build not available yet")
+	dir, err = os.MkdirTemp(workDir, "yield-")
+	if err != nil {
+		return "", "", err
+	}
+	tool := filepath.Join(binDir, "yieldify")
+	b := exec.Command("go1.26.8", "build", "-o", tool, "./cmd/yieldify")
+	b.Dir = simDir
+	b.Env = goEnv()
+	if out, e := b.CombinedOutput(); e != nil {
+		os.RemoveAll(dir)
+		return "", "", fmt.Errorf("build yieldify: %v\n%s", e, out)
+	}
+	args := append([]string{"/repo", filepath.Join(dir, "repo")}, yieldFiles...)
+	if out, e := exec.Command(tool, args...).CombinedOutput(); e != nil {
+		os.RemoveAll(dir)
+		return "", "", fmt.Errorf("yieldify: %v\n%s", e, out)
+	}
+	mod, e := os.ReadFile(filepath.Join(simDir, "go.mod"))
+	if e != nil {
+		os.RemoveAll(dir)
+		return "", "", e
+	}
+	alt := strings.Replace(string(mod), "=> /repo", "=> "+filepath.Join(dir, "repo"), 1)
+	modfile = filepath.Join(dir, "alt.mod")
+	os.WriteFile(modfile, []byte(alt), 0o644)
+	sum, _ := os.ReadFile(filepath.Join(simDir, "go.sum"))
+	os.WriteFile(filepath.Join(dir, "alt.sum"), sum, 0o644)
+	return dir, modfile, nil
 }
 
+// selftest proves determinism: for every property the same seeded runs are executed in
+// separate worker processes at GOMAXPROCS 1, 4 and 16 (and twice at 1) and the SHA-256
+// of every run's complete history is compared. A divergence is a harness defect (exit 2).
 func selftest(args []string) int {
-	fmt.Println("selftest: not implemented yet")
-	return 2
+	runs := 120
+	props := plan.Properties()
+	sort.Strings(props)
+	for i, a := range args {
+		if a == "--runs" && i+1 < len(args) {
+			fmt.Sscanf(args[i+1], "%d", &runs)
+		}
+		if a == "--props" && i+1 < len(args) {
+			props = strings.Split(args[i+1], ",")
+		}
+	}
+	bin, err := buildWorker("plain")
+	if err != nil {
+		fatal2("%v", err)
+	}
+	os.MkdirAll(workDir, 0o755)
+	dir, _ := os.MkdirTemp(workDir, "selftest-")
+	defer os.RemoveAll(dir)
+	bad := 0
+	total := 0
+	type res struct {
+		prop string
+		cfg  int
+		recs []runRecord
+	}
+	cfgs := []int{1, 1, 4, 16}
+	ch := make(chan res, len(props)*len(cfgs))
+	sem := make(chan struct{}, 16)
+	for _, p := range props {
+		if plan.Generate(p, 1, 0, "quick") == nil {
+			continue
+		}
+		for ci, gmp := range cfgs {
+			p, ci, gmp := p, ci, gmp
+			sem <- struct{}{}
+			go func() {
+				defer func() { <-sem }()
+				j := job{Property: p, Seed: 424242, Tier: "quick", From: 0, To: runs, Stride: 1, Build: "plain",
+					Out: filepath.Join(dir, fmt.Sprintf("st-%s-%d.jsonl", p, ci))}
+				r := runWorker(bin, j, gmp)
+				if r.died {
+					fmt.Fprintf(os.Stderr, "selftest: worker died for %s (GOMAXPROCS=%d):\n%s\n", p, gmp, tailStr(r.stderr, 1500))
+				}
+				ch <- res{p, ci, r.recs}
+			}()
+		}
+	}
+	got := map[string]map[int][]runRecord{}
+	n := 0
+	for _, p := range props {
+		if plan.Generate(p, 1, 0, "quick") != nil {
+			n += len(cfgs)
+		}
+	}
+	for i := 0; i < n; i++ {
+		r := <-ch
+		if got[r.prop] == nil {
+			got[r.prop] = map[int][]runRecord{}
+		}
+		got[r.prop][r.cfg] = r.recs
+	}
+	for _, p := range props {
+		m := got[p]
+		if m == nil {
+			continue
+		}
+		base := map[int]string{}
+		for _, r := range m[0] {
+			base[r.Run] = r.Raw
+		}
+		div := 0
+		for ci := 1; ci < len(cfgs); ci++ {
+			if len(m[ci]) != len(m[0]) {
+				div++
+				fmt.Printf("selftest %s: %d runs at config %d, %d at config 0\n", p, len(m[ci]), ci, len(m[0]))
+			}
+			for _, r := range m[ci] {
+				if base[r.Run] != r.Raw {
+					div++
+					if div < 4 {
+						fmt.Printf("selftest %s: run %d diverges at GOMAXPROCS=%d\n", p, r.Run, cfgs[ci])
+					}
+				}
+			}
+		}
+		total += len(m[0]) * (len(cfgs) - 1)
+		fmt.Printf("selftest %-4s %4d runs x %d executions: %d divergences\n", p, len(m[0]), len(cfgs), div)
+		bad += div
+	}
+	// iteration over maps or sync.Map in the simulator would be an unowned source of nondeterminism
+	out, _ := exec.Command("grep", "-rn", "--include=*.go", "-E", `\.Range\(|for .* range .*(map\[|Faults|Probes)`, filepath.Join(simDir, "runner"), filepath.Join(simDir, "world"), filepath.Join(simDir, "sut")).CombinedOutput()
+	if len(out) > 0 {
+		fmt.Printf("selftest: map iterations in simulator sources (must not feed choices or the history):\n%s", out)
+	}
+	if bad > 0 {
+		fmt.Printf("selftest: %d of %d comparisons diverged\n", bad, total)
+		return 2
+	}
+	fmt.Printf("selftest: %d comparisons, all identical\n", total)
+	return 0
 }
